@@ -2009,6 +2009,9 @@ involves_protected(CPPType *type) {
   case CPPDeclaration::ST_pointer:
     return involves_protected(type->as_pointer_type()->_pointing_at);
 
+  case CPPDeclaration::ST_array:
+    return involves_protected(type->as_array_type()->_element_type);
+
   case CPPDeclaration::ST_function:
     {
       CPPFunctionType *ftype = type->as_function_type();
